@@ -265,6 +265,67 @@ func resolveRoles(p *Program) {
 			toCanonical[r.pkg+"."+part+"."+actual] = r.canonical
 		}
 	}
+	// mutexes: upstream every struct with a lock calls it mtx; a struct's only sync.Mutex field is that lock
+	for _, rel := range scopePkgs {
+		pk := p.ByPath[p.pkgPath(rel)]
+		if pk == nil {
+			continue
+		}
+		sc := pk.Types.Scope()
+		for _, nm := range sc.Names() {
+			tn, ok := sc.Lookup(nm).(*types.TypeName)
+			if !ok || tn.IsAlias() {
+				continue
+			}
+			named, ok := tn.Type().(*types.Named)
+			if !ok {
+				continue
+			}
+			if _, isStruct := named.Underlying().(*types.Struct); !isStruct {
+				continue
+			}
+			var mus []*types.Var
+			partOfMu := map[string]string{}
+			var walk func(n *types.Named, depth int)
+			walk = func(n *types.Named, depth int) {
+				s, ok := n.Underlying().(*types.Struct)
+				if !ok || depth > 3 {
+					return
+				}
+				for i := 0; i < s.NumFields(); i++ {
+					f := s.Field(i)
+					ft := f.Type()
+					if pt, isP := ft.(*types.Pointer); isP {
+						ft = pt.Elem()
+					}
+					if types.TypeString(ft, nil) == "sync.Mutex" {
+						mus = append(mus, f)
+						partOfMu[f.Name()] = typeCanonName(n.Obj())
+						continue
+					}
+					if pn, isN := f.Type().(*types.Named); isN && pn.Obj().Pkg() == named.Obj().Pkg() && !pn.Obj().Exported() {
+						if _, isS := pn.Underlying().(*types.Struct); isS {
+							walk(pn, depth+1)
+						}
+					}
+				}
+			}
+			walk(named, 0)
+			if len(mus) != 1 || mus[0].Name() == "mtx" {
+				continue
+			}
+			pkgName, typ := pk.Types.Name(), typeCanonName(tn)
+			if _, done := toActual[pkgName+"."+typ+".mtx"]; done {
+				continue
+			}
+			rolesResolved++
+			rolesRenamed++
+			for _, t := range []string{typ, partOfMu[mus[0].Name()]} {
+				toActual[pkgName+"."+t+".mtx"] = mus[0].Name()
+				toCanonical[pkgName+"."+t+"."+mus[0].Name()] = "mtx"
+			}
+		}
+	}
 	// per-execution state of the retry executor, identified by kind: its only int counter, its only bool flag and
 	// its only duration; the fields may live in the executor or in a same-package struct it embeds by value
 	for _, spec := range []struct{ pkg, canonical, kind string }{
@@ -497,6 +558,14 @@ func resolveTypeRoles(p *Program) {
 					}
 					if timed {
 						set(st, "timedStats")
+						// the per-bucket tally: element type of the bucket slice
+						for i := 0; i < s.NumFields(); i++ {
+							if sl, ok := s.Field(i).Type().Underlying().(*types.Slice); ok {
+								if en, ok := sl.Elem().(*types.Named); ok && en.Obj().Pkg() == st.Obj().Pkg() {
+									set(en, "stat")
+								}
+							}
+						}
 					} else {
 						set(st, "countingStats")
 					}
@@ -504,6 +573,12 @@ func resolveTypeRoles(p *Program) {
 			}
 		}
 	}
+	// the metrics snapshot handed to state-change listeners: the struct implementing the exported Metrics interface
+	// that is not the breaker itself
+	set(one(structsOf("circuitbreaker", func(n *types.Named, _ *types.Struct) bool {
+		ex := execNamedOf(p, "circuitbreaker")
+		return implements(n, "circuitbreaker", "Metrics") && !declaresToExecutor(n, nil) && (ex == nil || ex.Obj() != n.Obj())
+	})), "eventMetrics")
 	// rate limiter: stats interface = the limiter's interface-typed field; bursty = the implementation with a plain
 	// int permit balance, smooth = the other
 	if rl := one(structsOf("ratelimiter", declaresToExecutor)); rl != nil {
